@@ -210,6 +210,7 @@ type scen struct {
 	calls      []*call
 	descs      []string
 
+	spelling        string         // how miner.proof_dir is written for this scenario's keepers ("" = absolute, clean)
 	lastSel         map[string]int // id -> bl of the last successful selection
 	okSelected      bool
 	restartCompared bool
@@ -357,8 +358,35 @@ func (s *scen) scannedDirs() []string {
 	return out
 }
 
+// spell writes a directory the way a configuration file may: the configuration does not normalise miner.proof_dir,
+// so relative and otherwise non-canonical spellings of the same directory reach the keeper's constructor.
+func (s *scen) spell(dir string) string {
+	switch s.spelling {
+	case "relative":
+		if cwd, err := os.Getwd(); err == nil {
+			if rel, err := filepath.Rel(cwd, dir); err == nil {
+				return rel
+			}
+		}
+	case "dotdot":
+		return filepath.Dir(dir) + "/../" + filepath.Base(filepath.Dir(dir)) + "/" + filepath.Base(dir)
+	case "slash":
+		return dir + "/"
+	case "dot":
+		return dir + "/."
+	}
+	return dir
+}
+
 func (s *scen) newKeeper(dirs []string) (*capacity.SpaceKeeper, error) {
-	cfg := &config.Config{Miner: &config.Miner{ProofDir: append([]string{}, dirs...)}}
+	written := make([]string, len(dirs))
+	for i, d := range dirs {
+		written[i] = s.spell(d)
+	}
+	if s.spelling != "" {
+		s.run.Count("keepers_constructed_with_proof_dir_spelling:"+s.spelling, 1)
+	}
+	cfg := &config.Config{Miner: &config.Miner{ProofDir: written}}
 	sk, err := capacity.NewSpaceKeeperV1(cfg, s.bw)
 	if err != nil {
 		return nil, err
@@ -807,6 +835,7 @@ func (s *scen) opByPath(paths []int, vals []uint64, via, desc string) {
 		pstr[i] = s.dirs[p]
 	}
 	var f func() ([]engine.WorkSpaceInfo, error)
+	var apiAllocs []*pb.WorkSpacesByDirsResponse_Allocation
 	if via == "api" {
 		c.Op = "api.ConfigureCapacityByDirs"
 		c.Args = map[string]interface{}{"directory_indices": paths, "capacity_mib": vals}
@@ -816,10 +845,11 @@ func (s *scen) opByPath(paths []int, vals []uint64, via, desc string) {
 			al[i] = &pb.ConfigureSpaceKeeperByDirsRequest_Allocation{Directory: pstr[i], Capacity: vals[i]}
 		}
 		f = func() ([]engine.WorkSpaceInfo, error) {
-			_, err := s.server().ConfigureCapacityByDirs(context.Background(), &pb.ConfigureSpaceKeeperByDirsRequest{Allocations: al, PayoutAddresses: []string{s.wc.addr}, Passphrase: privPass})
+			resp, err := s.server().ConfigureCapacityByDirs(context.Background(), &pb.ConfigureSpaceKeeperByDirsRequest{Allocations: al, PayoutAddresses: []string{s.wc.addr}, Passphrase: privPass})
 			if err != nil {
 				return nil, err
 			}
+			apiAllocs = resp.Allocations
 			return s.k.WorkSpaceInfos(engine.SFAll)
 		}
 	} else {
@@ -853,6 +883,45 @@ func (s *scen) opByPath(paths []int, vals []uint64, via, desc string) {
 	}
 	s.run.Count("call:ByPath:"+via+":ok", 1)
 	s.noteSelection(o)
+	if via == "api" {
+		// (f) the API's own answer to the per-directory request: per requested directory it lists exactly the
+		// spaces selected there - so its total obeys (a) as well, also when this reconfiguration dropped spaces
+		s.run.Count("api_by_dirs_responses_compared", 1)
+		for i, p := range paths {
+			var rep []string
+			var repBytes uint64
+			found := false
+			for _, a := range apiAllocs {
+				if a.Directory != pstr[i] {
+					continue
+				}
+				found = true
+				for _, w := range a.Spaces {
+					rep = append(rep, w.SpaceId)
+					repBytes += ps(int(w.BitLength))
+				}
+			}
+			var sel []string
+			for _, x := range o.infos {
+				if x.Dir == p {
+					sel = append(sel, x.ID)
+				}
+			}
+			sort.Strings(rep)
+			sort.Strings(sel)
+			if !found && len(sel) == 0 {
+				continue
+			}
+			if strings.Join(rep, ",") != strings.Join(sel, ",") {
+				over := "false"
+				if new(big.Int).SetUint64(repBytes).Cmp(reqs[i]) > 0 {
+					over = "true"
+				}
+				s.violate("api-per-directory-response-differs-from-selection", map[string]string{"reported_total_exceeds_request": over},
+					map[string]interface{}{"directory": p, "request_bytes": reqs[i].String(), "reported_spaces": rep, "reported_bytes": repBytes, "selected_spaces_in_directory": sel})
+			}
+		}
+	}
 	s.newDirs = map[int]bool{paths[0]: true}
 	s.judgeAcceptedClass("ByPath", via, classes, reqs)
 	inPaths := map[int]bool{}
@@ -1441,7 +1510,7 @@ func (s *scen) setup() bool {
 		db.Close()
 		s.run.Count("pre_existing_spaces_created_directly", 1)
 	}
-	s.descs = append(s.descs, fmt.Sprintf("dirs=%d proof=%d pre=[%s] viaKeeper=%v", nd, s.nProof, strings.Join(pd, " "), viaKeeper && len(counts) > 0))
+	s.descs = append(s.descs, fmt.Sprintf("dirs=%d proof=%d pre=[%s] viaKeeper=%v proof_dir_spelling=%q", nd, s.nProof, strings.Join(pd, " "), viaKeeper && len(counts) > 0, s.spelling))
 	proof := s.dirs[:s.nProof]
 	if viaKeeper && len(counts) > 0 {
 		k0, err := s.newKeeper(proof)
@@ -1491,6 +1560,9 @@ func runScenario(run *vh.Run, ci int, rng *vh.Rng) {
 	defer putWallet(wc)
 	s := &scen{run: run, ci: ci, rng: rng, wc: wc, bw: &budgetWallet{KeystoreManagerForPoC: wc.w.M}}
 	s.root = filepath.Join(run.Scratch, fmt.Sprintf("s%d", ci))
+	if sr := rng.Derive("spelling", 0); sr.Chance(2, 5) {
+		s.spelling = sr.PickS("relative", "relative", "dotdot", "slash", "dot")
+	}
 	defer func() {
 		os.RemoveAll(s.root)
 		if ci%8 == 0 {
@@ -1541,6 +1613,7 @@ func main() {
 	run.Assume("free disk space is read with disk.Usage(dir).Free immediately before each call (the call the keeper uses); accept/reject is judged only for requests at least 2 GiB inside or half a PlotSize(28) outside that value")
 	run.Assume("the keeper's index is modelled as the plot files present in the directories it has scanned; the model is confirmed by ConfigureByFlags results and a scenario where it is not is dropped")
 	run.Assume(fmt.Sprintf("a wallet wrapper stops a configure call after %d newly issued keys (no judged-valid request needs that many) so that an unbounded creation loop cannot fill the disk", keyBudgetPerCall))
+	os.Chdir(run.Scratch) // relative proof_dir spellings are relative to this
 	root := run.Rng()
 	n := run.N(200, 5000)
 	vh.Parallel(n, workers, func(ci int) {
@@ -1567,5 +1640,5 @@ func main() {
 		}
 	}
 	_ = hex.EncodeToString
-	run.Finish("case = one seeded scenario: 0-6 pre-existing header-only spaces (bit lengths 24-30, 1-3 proof directories, created directly or by a first keeper's ConfigureByBitLength, some removed), then 1-4 operations out of ConfigureBySize / ConfigureByPath / ConfigureByBitLength / ConfigureByFlags / Remove / restart (a quarter of the size calls through api.Server.ConfigureCapacity / ConfigureCapacityByDirs) with targets at sums of plot sizes +-1, the minimum +-1, k*PlotSize(24)+r, free space + plots and 2^62..2^64-1, then a restart comparison; non-trivial = at least one successful configure call selected >= 1 space and a restart comparison happened; distinct by hash of the operation list", run.N(100, 2500))
+	run.Finish("case = one seeded scenario: 0-6 pre-existing header-only spaces (bit lengths 24-30, 1-3 proof directories, created directly or by a first keeper's ConfigureByBitLength, some removed), then 1-4 operations out of ConfigureBySize / ConfigureByPath / ConfigureByBitLength / ConfigureByFlags / Remove / restart (a quarter of the size calls through api.Server.ConfigureCapacity / ConfigureCapacityByDirs) with targets at sums of plot sizes +-1, the minimum +-1, k*PlotSize(24)+r, free space + plots and 2^62..2^64-1, then a restart comparison; two in five scenarios write miner.proof_dir in a non-canonical way for every keeper they construct (relative to the working directory, through "..", with a trailing "/" or "/."), while requests name the clean absolute path; every api.ConfigureCapacityByDirs response is compared per directory with the selection; non-trivial = at least one successful configure call selected >= 1 space and a restart comparison happened; distinct by hash of the operation list", run.N(100, 2500))
 }
